@@ -4,6 +4,7 @@ import z3
 from pyvc.sorts import *  # noqa
 from pyvc.state import *  # noqa
 
+comp_ref = z3.Function('comp_ref', I, I, Val, I)   # fresh container of a comprehension, per key
 EMPTY_STR = strlit('')
 
 
@@ -202,6 +203,91 @@ class ExprMixin:
       st3 = st3.hset('dval', z3.Store(st3.heap.get('dval'), r, dv))
       return [Res(st3, VRef(r))]
     return self.then(self.ev_list(list(e.keys) + list(e.values), st), k)
+
+  # comprehensions: summaries with a quantified post (DESIGN §2.2) ---------------------------
+  def ex_DictComp(self, e, st):
+    """{k: wrap(v) for k, v in d.items() [if v]} with wrap in set/frozenset/list/tuple: a fresh
+    dict holding one fresh container per (selected) key, with the same members."""
+    from pyvc.calls import trusted
+    if len(e.generators) != 1:
+      self.unsupp('nested comprehension', e)
+    g = e.generators[0]
+    ok = (isinstance(g.target, ast.Tuple) and len(g.target.elts) == 2
+          and all(isinstance(x, ast.Name) for x in g.target.elts)
+          and isinstance(g.iter, ast.Call) and isinstance(g.iter.func, ast.Attribute)
+          and g.iter.func.attr == 'items' and not g.iter.args
+          and isinstance(e.key, ast.Name) and e.key.id == g.target.elts[0].id
+          and isinstance(e.value, ast.Call) and isinstance(e.value.func, ast.Name)
+          and e.value.func.id in ('set', 'frozenset', 'list', 'tuple')
+          and len(e.value.args) == 1 and isinstance(e.value.args[0], ast.Name)
+          and e.value.args[0].id == g.target.elts[1].id
+          and len(g.ifs) <= 1
+          and all(isinstance(c, ast.Name) and c.id == g.target.elts[1].id for c in g.ifs))
+    if not ok:
+      self.unsupp('dict comprehension outside the summarised forms', e)
+    wrap = e.value.func.id
+    trusted('dict comprehension {k: %s(v) for k, v in d.items()}: one fresh %s per key' % (wrap, wrap))
+    def k(st2, src):
+      return self.dictcomp_summary(src, wrap, bool(g.ifs), st2, e)
+    return self.then(self.ev(g.iter.func.value, st), k)
+
+  def dictcomp_summary(self, src, wrap, filtered, st, node):
+    from pyvc.state import cls_fn
+    h = st.heap
+    s = ref(src)
+    if self.feasible_full(st, z3.Not(z3.And(is_VRef(src), cls_in(h.cls(s), 'dict')))):
+      self.unsupp('dict comprehension over a value that may not be a dict', node)
+    site = z3.IntVal(node.lineno * 1000 + node.col_offset)
+    a0 = h.alloc
+    kk = z3.Const('dc_k', Val)
+    k2 = z3.Const('dc_k2', Val)
+    setlike = wrap in ('set', 'frozenset')
+    clsname = {'set': 'set', 'frozenset': 'set', 'list': 'list', 'tuple': 'tuple'}[wrap]
+    cref = lambda x: comp_ref(site, a0, x)
+    # the fresh dict itself, then a block of fresh containers (one per key)
+    st1, d = self.new_dict(st, 'dict')
+    h1 = st1.heap
+    na = fresh('dc_alloc', I)
+    sv = h.dget(s, kk)
+    if setlike:
+      truth = z3.Exists([k2], h.hasarr(ref(sv))[k2])
+    else:
+      truth = h.len(ref(sv)) > 0
+    sel = z3.And(h.has(s, kk), truth) if filtered else h.has(s, kk)
+    newhas = fresh('dc_has', HasArr)
+    newval = fresh('dc_val', ValMap)
+    facts = [na >= h1.alloc,
+             z3.ForAll([kk], newhas[kk] == sel, patterns=[newhas[kk]]),
+             z3.ForAll([kk], z3.Implies(newhas[kk], z3.And(
+                 newval[kk] == VRef(cref(kk)), cref(kk) >= h1.alloc, cref(kk) < na,
+                 cls_fn(cref(kk)) == z3.IntVal(CLASSES[clsname]))), patterns=[newval[kk]]),
+             z3.ForAll([kk, k2], z3.Implies(z3.And(newhas[kk], newhas[k2], kk != k2),
+                                            cref(kk) != cref(k2)),
+                       patterns=[z3.MultiPattern(cref(kk), cref(k2))])]
+    r = z3.Int('dc_r')
+    newh = h1
+    for arr in ('dhas', 'dval', 'llen', 'lelt'):
+      old = h1.get(arr)
+      new = fresh('dc_' + arr, heap_sort(arr))
+      facts.append(z3.ForAll([r], z3.Implies(r < h1.alloc, new[r] == old[r]), patterns=[new[r]]))
+      newh = newh.set(arr, new)
+    # contents of the fresh containers
+    if setlike:
+      facts.append(z3.ForAll([kk], z3.Implies(newhas[kk],
+                                              newh.get('dhas')[cref(kk)] == h.hasarr(ref(sv))),
+                             patterns=[newh.get('dhas')[cref(kk)]]))
+    else:
+      facts.append(z3.ForAll([kk], z3.Implies(newhas[kk], z3.And(
+          newh.get('llen')[cref(kk)] == h.len(ref(sv)),
+          newh.get('lelt')[cref(kk)] == h.eltarr(ref(sv)))),
+          patterns=[newh.get('llen')[cref(kk)]]))
+    newh = newh.set('alloc', na)
+    # the rows of the fresh dict d are preserved by the frame facts above (d < h1.alloc): set them
+    newh = newh.set('dhas', z3.Store(newh.get('dhas'), d, newhas))
+    newh = newh.set('dval', z3.Store(newh.get('dval'), d, newval))
+    # the source values must be containers of the right kind (else TypeError in CPython)
+    st2 = st1.with_heap(newh).assume(*facts)
+    return [Res(st2, VRef(d))]
 
   def ex_JoinedStr(self, e, st):
     # contents of f-strings are abstracted to an opaque string (DESIGN §2.1)
@@ -545,7 +631,7 @@ class ExprMixin:
       # inspect.Signature.parameters of a Signature object
       return [Res(st, ParamMap(r))]
     from pyvc import contract as _C
-    cands = [k for k in _C.BY_METHOD.get(name, []) if '.' in k.qualname and not k.abstract]
+    cands = [k for k in _C.BY_METHOD.get(name, []) if '.' in k.qualname]
     if cands:
       # a method only if the receiver can be an instance of the class that defines it
       conds = []
